@@ -7,7 +7,9 @@
    active_at (tbl s) k is what ansi_settings_at(k) reports. *)
 From AS Require Import Base.
 From AS.Model Require Import Table Ops.
-From AS.Proofs Require Import TableProofs SliceProofs PadProofs ConcatProofs.
+From AS Require Import Effects.
+From AS.Model Require Import Sgr Tokenizer Render Scrub Parse StrOps FormatSpec Exec.
+From AS.Proofs Require Import TableProofs SliceProofs PadProofs ConcatProofs ExecProofs InvariantProofs ReachableCorollaries.
 
 (* a + b succeeds on well-formed operands (the IndexError branch of the seam re-targeting is
    unreachable), the text is a.text + b.text *)
@@ -28,7 +30,7 @@ Print Assumptions C05_left.
    whether the styles at the seam are equal (merged), a prefix, different, nested or overlapping;
    identities are not preserved across a merge (b's objects are replaced by a's), which no public
    query can observe on the result alone *)
-Theorem C05_right : forall a b, WF a -> WF b -> forall c, coherent (tbl a) -> iadd a b = OK c ->
+Theorem C05_right : forall a b, WF a -> WF b -> forall c, ConcatProofs.coherent (tbl a) -> iadd a b = OK c ->
   forall k, map stxt (active_at (tbl c) (length (base a) + k)) = map stxt (active_at (tbl b) k).
 Proof. exact iadd_right. Qed.
 Print Assumptions C05_right.
@@ -41,10 +43,10 @@ Print Assumptions C05_right_identities.
 
 (* the result is well formed again (in particular closed: nothing bleeds into text appended later),
    and identities still determine texts *)
-Theorem C05_wf : forall a b, WF a -> WF b -> forall c, coherent (tbl a) -> iadd a b = OK c -> WF c.
+Theorem C05_wf : forall a b, WF a -> WF b -> forall c, ConcatProofs.coherent (tbl a) -> iadd a b = OK c -> WF c.
 Proof. exact iadd_WF. Qed.
 Theorem C05_coherent : forall a b c,
-  coherent (tbl a) -> coherent (tbl b) -> coherent_pair a b -> iadd a b = OK c -> coherent (tbl c).
+  ConcatProofs.coherent (tbl a) -> ConcatProofs.coherent (tbl b) -> coherent_pair a b -> iadd a b = OK c -> ConcatProofs.coherent (tbl c).
 Proof. exact iadd_coherent. Qed.
 Print Assumptions C05_wf.
 Print Assumptions C05_coherent.
@@ -59,11 +61,30 @@ Theorem C05_add : forall a b, add a b = iadd a b.
 Proof. exact add_is_iadd. Qed.
 Theorem C05_join : forall x xs, join_astr (x :: xs) = fold_left iadd_res xs (OK x).
 Proof. exact join_astr_fold. Qed.
-Theorem C05_join_wf : forall x xs, Forall WF (x :: xs) -> coherent (tbls (x :: xs)) ->
-  exists c, join_astr (x :: xs) = OK c /\ WF c /\ base c = concat (map base (x :: xs)) /\ coherent (tbl c).
+Theorem C05_join_wf : forall x xs, Forall WF (x :: xs) -> ConcatProofs.coherent (tbls (x :: xs)) ->
+  exists c, join_astr (x :: xs) = OK c /\ WF c /\ base c = concat (map base (x :: xs)) /\ ConcatProofs.coherent (tbl c).
 Proof. exact join_WF. Qed.
 Print Assumptions C05_join.
 Print Assumptions C05_join_wf.
+
+(* FOR EVERY PAIR OF REACHABLE VALUES of one pool - a value with itself included: the concatenation
+   succeeds, has the concatenated text, every character of a keeps its setting objects, every character of
+   b keeps its setting texts in order, and the result is well formed *)
+Theorem C05_reachable : forall p o1 o2, reachable_ok p -> In o1 (objs p) -> In o2 (objs p) ->
+  let a := o_val o1 in let b := o_val o2 in
+  exists c, iadd a b = OK c /\ base c = base a ++ base b
+    /\ (forall k, k < length (base a) -> active_at (tbl c) k = active_at (tbl a) k)
+    /\ (forall k, map stxt (active_at (tbl c) (length (base a) + k)) = map stxt (active_at (tbl b) k))
+    /\ WF c.
+Proof.
+  intros p o1 o2 Hr H1 H2 a b.
+  destruct (reachable_value p o1 Hr H1) as (_ & Wa & _ & _ & _ & _ & _ & _ & _ & Ca & _).
+  destruct (reachable_value p o2 Hr H2) as (_ & Wb & _).
+  destruct (iadd_ok a b Wa Wb) as [c E]. exists c. split; [exact E|].
+  split; [exact (iadd_base a b Wa Wb c E)|]. split; [exact (iadd_left a b Wa Wb c E)|].
+  split; [exact (iadd_right a b Wa Wb c Ca E) | exact (iadd_WF a b Wa Wb c Ca E)].
+Qed.
+Print Assumptions C05_reachable.
 
 (* non-vacuity: merging, non-merging and shared-identity operands (two halves of one string; the
    repaired F26 configuration) satisfy the hypotheses - see the Examples of Proofs/ConcatProofs.v *)
